@@ -578,3 +578,12 @@ Qed.
 Theorem shapes_meet_aabb_overlap (A B : set3) lo1 hi1 lo2 hi2 :
   aabb_exact A lo1 hi1 -> aabb_exact B lo2 hi2 -> intersect A B -> aabb_overlap lo1 hi1 lo2 hi2.
 Proof. intros [HA _] [HB _]. apply intersect_aabb_overlap; auto. Qed.
+
+(** ** concrete poses for the non-vacuity examples of Props/C04.v *)
+Definition T345z : Pose R := P (M (V (3 / 5) (- (4 / 5)) 0) (V (4 / 5) (3 / 5) 0) (V 0 0 1)) (V 1 2 3).
+Definition T345x : Pose R := P (M (V 1 0 0) (V 0 (3 / 5) (- (4 / 5))) (V 0 (4 / 5) (3 / 5))) (V 1 2 3).
+Lemma T345z_rotation : is_rotation (rot T345z).
+Proof. apply is_rotation_cols. unfold cols_orthonormal, T345z. vunfold. cbn. repeat split; field. Qed.
+Lemma T345x_rotation : is_rotation (rot T345x).
+Proof. apply is_rotation_cols. unfold cols_orthonormal, T345x. vunfold. cbn. repeat split; field. Qed.
+
